@@ -5,33 +5,46 @@ Import ListNotations.
 Open Scope Z_scope.
 
 (* ------------------------------------------------------------------ the directory *)
-(* the directory's own verdict on (u, pw): u's entry holds pw (and pw is not the empty password) *)
-Definition dir_accepts (s : pstate) (u pw : N) : bool :=
-  match aget N.eqb u (dir s) with
-  | Some p => N.eqb p pw && negb (N.eqb pw 0)
-  | None => false
-  end.
+(* an answering replica gives the directory's verdict under the FIRST pattern, whatever diagnostic
+   comes with a refusal and however many more patterns are configured; a replica that does not
+   answer does not answer under any pattern *)
+Lemma bind_at_first s sv u pw : bind_at s sv 0 u pw = bind s sv u pw.
+Proof. reflexivity. Qed.
+
+Lemma verdict_up s u pw : verdict interp_code (bind s SUp u pw) = Some (dir_accepts s u pw).
+Proof. unfold bind, bind_at. fold (dir_accepts s u pw). destruct (dir_accepts s u pw); reflexivity. Qed.
+
+Lemma try_patterns_up s ps u pw : try_patterns interp_code s SUp (0%nat :: ps) u pw = Some (dir_accepts s u pw).
+Proof. cbn [try_patterns]. rewrite bind_at_first, verdict_up. reflexivity. Qed.
+
+Lemma try_patterns_silent s sv ps u pw : sv <> SUp -> try_patterns interp_code s sv ps u pw = None.
+Proof. intro H. induction ps as [|p r IH]; [reflexivity|]. destruct sv; [congruence| |]; simpl; exact IH. Qed.
+
+Lemma patterns_cons s : patterns s = 0%nat :: seq 1 (extra_patterns s).
+Proof. reflexivity. Qed.
 
 Lemma first_answer_some s svs u pw v :
   first_answer s svs u pw = Some v -> In SUp svs /\ v = dir_accepts s u pw.
 Proof.
-  induction svs as [|sv r IH]; simpl; [discriminate|].
-  destruct sv; simpl.
-  - intro H. inversion H. split; [left; reflexivity|reflexivity].
-  - intro H. destruct (IH H) as [A B]. split; [right; exact A|exact B].
-  - intro H. destruct (IH H) as [A B]. split; [right; exact A|exact B].
+  unfold first_answer. induction svs as [|sv r IH]; cbn [first_answer_gen]; [discriminate|].
+  destruct sv.
+  - rewrite patterns_cons, try_patterns_up. intro H. inversion H. split; [left; reflexivity|reflexivity].
+  - rewrite try_patterns_silent by discriminate. intro H. destruct (IH H) as [A B]. split; [right; exact A|exact B].
+  - rewrite try_patterns_silent by discriminate. intro H. destruct (IH H) as [A B]. split; [right; exact A|exact B].
 Qed.
 
 Lemma first_answer_none s svs u pw : first_answer s svs u pw = None -> ~ In SUp svs.
 Proof.
-  induction svs as [|sv r IH]; simpl; [tauto|].
-  destruct sv; simpl; [discriminate| |]; intros H [C|C]; try discriminate; exact (IH H C).
+  unfold first_answer. induction svs as [|sv r IH]; cbn [first_answer_gen]; [simpl; tauto|].
+  destruct sv; [rewrite patterns_cons, try_patterns_up; discriminate| |];
+    rewrite try_patterns_silent by discriminate; intros H [C|C]; try discriminate; exact (IH H C).
 Qed.
 
 Lemma first_answer_in s svs u pw : In SUp svs -> first_answer s svs u pw = Some (dir_accepts s u pw).
 Proof.
-  induction svs as [|sv r IH]; simpl; [tauto|].
-  destruct sv; simpl; [reflexivity| |]; intros [C|C]; try discriminate; exact (IH C).
+  unfold first_answer. induction svs as [|sv r IH]; cbn [first_answer_gen]; [simpl; tauto|].
+  destruct sv; [rewrite patterns_cons, try_patterns_up; reflexivity| |];
+    rewrite try_patterns_silent by discriminate; intros [C|C]; try discriminate; exact (IH C).
 Qed.
 
 (* ------------------------------------------------------------------ facts about the storage steps used *)
@@ -106,9 +119,10 @@ Qed.
 Lemma inv_step n ops o : inv n ops (prun n ops) -> inv n (ops ++ [o]) (fst (pstep (prun n ops) o)).
 Proof.
   set (s := prun n ops). intro I.
-  destruct o as [u pw|i sv|u pw|dt|m| |w slot r col]; unfold pstep, pstep_gen.
+  destruct o as [u pw|i sv|u pw|dt|m| |w slot r col|ua da|ds|uh ph]; unfold pstep, pstep_gen.
   - (* Login *)
-    unfold login_gen. destruct (first_answer s (servers s) u pw) as [[|]|] eqn:FA; cbn [fst].
+    unfold login_gen. fold (first_answer s (servers s) u pw).
+    destruct (first_answer s (servers s) u pw) as [[|]|] eqn:FA; cbn [fst].
     + unfold refresh. destruct (writable (st s)) eqn:W; [|apply (inv_keep n ops _ s s I); [reflexivity|lia]].
       intros id j H G. cbn [jwss st] in *. rewrite now_upsert.
       destruct (nth_error_snoc _ _ _ _ H) as [H1|[_ ->]].
@@ -131,6 +145,9 @@ Proof.
       destruct (nth_error_snoc _ _ _ _ H) as [H1|[_ ->]]; [|discriminate G].
       destruct (I id j H1 G) as [A [B C]]. repeat split; [apply confirmed_snoc; exact A|exact B|exact C].
     + apply (inv_keep n ops _ s _ I); [reflexivity|]. cbn [st with_st]. rewrite now_put. lia.
+  - apply (inv_keep n ops _ s _ I); [reflexivity|cbn [fst st]; lia].
+  - apply (inv_keep n ops _ s _ I); [reflexivity|cbn [fst st]; lia].
+  - apply (inv_keep n ops _ s _ I); [reflexivity|cbn [fst st]; lia].
 Qed.
 
 Lemma inv_run n ops : inv n ops (prun n ops).
@@ -152,7 +169,7 @@ Lemma accept_sound n ops u pw :
                now (st s) < sr_exp r /\ now (st s) < j_exp j /\
                confirmed n ops j /\ 0 <= now (st s) - j_nbf j < cache_secs).
 Proof.
-  intro s. unfold login, login_gen.
+  intro s. unfold login, login_gen. fold (first_answer s (servers s) u pw).
   destruct (first_answer s (servers s) u pw) as [[|]|] eqn:FA; cbn [snd].
   - intros _. left. destruct (first_answer_some _ _ _ _ _ FA) as [A B]. split; [exact A|symmetry; exact B].
   - discriminate.
@@ -170,7 +187,7 @@ Qed.
 
 Lemma verdict_final s u pw : In SUp (servers s) -> snd (login s u pw) = dir_accepts s u pw.
 Proof.
-  intro H. unfold login, login_gen. rewrite (first_answer_in s _ u pw H).
+  intro H. unfold login, login_gen. fold (first_answer s (servers s) u pw). rewrite (first_answer_in s _ u pw H).
   destruct (dir_accepts s u pw); reflexivity.
 Qed.
 
@@ -183,7 +200,7 @@ Lemma evicts s u pw j :
      aget skey_eqb (u, pw_type) (signed (cache (st s'))) = None) /\
   (writable (st s) = false -> s' = s).
 Proof.
-  intros Hup Hrej Hg Hpw. unfold login, login_gen. rewrite (first_answer_in s _ u pw Hup), Hrej, Hg.
+  intros Hup Hrej Hg Hpw. unfold login, login_gen. fold (first_answer s (servers s) u pw). rewrite (first_answer_in s _ u pw Hup), Hrej, Hg.
   subst pw. rewrite N.eqb_refl. cbn [fst]. unfold evict, step, step_gen.
   destruct (writable (st s)); split; intro W; try discriminate.
   - cbn [fst st with_st signed_both primary cache signed set_signed].
@@ -196,7 +213,7 @@ Lemma reject_keeps_other s u pw :
   (forall j, get_pw true s u = GOk j -> j_pw j <> pw) ->
   fst (login s u pw) = s.
 Proof.
-  intros Hup Hrej Hother. unfold login, login_gen. rewrite (first_answer_in s _ u pw Hup), Hrej. cbn [fst].
+  intros Hup Hrej Hother. unfold login, login_gen. fold (first_answer s (servers s) u pw). rewrite (first_answer_in s _ u pw Hup), Hrej. cbn [fst].
   destruct (get_pw true s u) as [| |j] eqn:G; try reflexivity.
   destruct (N.eqb (j_pw j) pw) eqn:E; [|reflexivity]. apply N.eqb_eq in E. exfalso. exact (Hother j eq_refl E).
 Qed.
@@ -210,7 +227,7 @@ Lemma refreshes s u pw :
   aget skey_eqb (u, pw_type) (signed (cache (st s'))) = Some (mk_srow id (n + cache_secs) n) /\
   nth_error (jwss s') (N.to_nat id) = Some (mk_jws true u pw n (n + cache_secs)).
 Proof.
-  intros Hup Hacc W. unfold login, login_gen. rewrite (first_answer_in s _ u pw Hup), Hacc. cbn [fst].
+  intros Hup Hacc W. unfold login, login_gen. fold (first_answer s (servers s) u pw). rewrite (first_answer_in s _ u pw Hup), Hacc. cbn [fst].
   unfold refresh, step, step_gen. rewrite W. cbn [fst st jwss signed_both primary cache signed set_signed].
   repeat split; try apply (aget_aset_same skey_eqb skey_eqb_spec).
   rewrite Nnat.Nat2N.id. rewrite nth_error_app2 by lia. rewrite Nat.sub_diag. reflexivity.
@@ -219,7 +236,7 @@ Qed.
 (* nobody answers: nothing is written, whatever the verdict *)
 Lemma outage_login_pure s u pw : ~ In SUp (servers s) -> fst (login s u pw) = s.
 Proof.
-  intro H. unfold login, login_gen.
+  intro H. unfold login, login_gen. fold (first_answer s (servers s) u pw).
   destruct (first_answer s (servers s) u pw) as [v|] eqn:FA; [|reflexivity].
   destruct (first_answer_some _ _ _ _ _ FA) as [C _]. contradiction.
 Qed.
@@ -275,4 +292,107 @@ Lemma evict_primary_outage_refuted :
   let s := prun 1 (removelast evict_outage_history) in
   nth 6 (map snd (prun_outs (pinit 1) evict_outage_history)) None = Some false /\
   snd (pstep s (Login 1 7)) = Some true.
+Proof. vm_compute. split; reflexivity. Qed.
+
+(* ------------------------------------------------------------------ refusals and their diagnostics *)
+Local Close Scope N_scope.
+
+(* result code 49 is a verdict whatever text comes with it; no other result code is one *)
+Lemma interp_code_any_diag c d :
+  interp_code c d = if N.eqb c invalid_credentials then Some false else None.
+Proof. reflexivity. Qed.
+
+Lemma bind_refused_rejects s u pw c d : bind s SUp u pw = RRefused c d -> c = invalid_credentials /\ dir_accepts s u pw = false.
+Proof. unfold bind, bind_at. fold (dir_accepts s u pw). destruct (dir_accepts s u pw); [discriminate|]. intro H. inversion H. split; reflexivity. Qed.
+
+(* a replica answers the bind with invalidCredentials and ANY diagnostic (bad password, no such
+   user, account disabled / locked out / expired, password expired, no text at all): the login
+   is refused, and if the presented password is the cached one its hash is evicted from both
+   stores *)
+Lemma refusal_final s u pw d :
+  In SUp (servers s) -> bind s SUp u pw = RRefused invalid_credentials d ->
+  snd (login s u pw) = false /\
+  forall j, get_pw true s u = GOk j -> j_pw j = pw -> writable (st s) = true ->
+    aget skey_eqb (u, pw_type) (signed (primary (st (fst (login s u pw))))) = None /\
+    aget skey_eqb (u, pw_type) (signed (cache (st (fst (login s u pw))))) = None.
+Proof.
+  intros Hup Hb. destruct (bind_refused_rejects _ _ _ _ _ Hb) as [_ Hrej]. split.
+  - rewrite (verdict_final s u pw Hup). exact Hrej.
+  - intros j Hg Hpw W. destruct (evicts s u pw j Hup Hrej Hg Hpw) as [E _]. exact (E W).
+Qed.
+
+(* an account out of order is refused with result code 49 and the diagnostic of its state *)
+Lemma acct_refused s u pw d : aget N.eqb u (acct s) = Some d ->
+  bind s SUp u pw = RRefused invalid_credentials (if Nat.eqb (home s u) 0 then d else style s).
+Proof.
+  intro H. unfold bind, bind_at, entry_accepts, refusal_diag. rewrite H. rewrite andb_false_r. reflexivity.
+Qed.
+
+(* a reading of the diagnostic under which only "bad password" / "no such user" count as the
+   directory's answer lets the cache overrule a directory that refused: alice's password 7 was
+   cached by a confirmed login, her account is then disabled (AD sub status 0x533); while the
+   directory is up and refusing her, the diagnostic-sensitive machine accepts 7 from the cache *)
+Definition prun_ad (n : nat) (ops : list pop) : pstate :=
+  fold_left (fun s o => fst (pstep_ad s o)) ops (pinit n).
+Definition ad_disabled_history : list pop :=
+  [ChangePw 1 7; PTick 1000%Z; Login 1 7; SetStyle (DAD 1326); SetAcct 1 (Some (DAD 1331)); Login 1 7].
+
+Lemma diag_sensitive_refuted :
+  let ops := removelast ad_disabled_history in
+  In SUp (servers (prun_ad 1 ops)) /\ dir_accepts (prun_ad 1 ops) 1 7 = false /\
+  snd (pstep_ad (prun_ad 1 ops) (Login 1 7)) = Some true /\
+  snd (pstep (prun 1 ops) (Login 1 7)) = Some false /\
+  aget skey_eqb (1%N, pw_type) (signed (cache (st (fst (pstep (prun 1 ops) (Login 1 7)))))) = None.
+Proof. vm_compute. repeat split; try reflexivity. left. reflexivity. Qed.
+
+(* ------------------------------------------------------------------ several bind patterns *)
+Definition with_extra (s : pstate) (e : nat) : pstate :=
+  mk_pstate (st s) (dir s) (servers s) (jwss s) (acct s) (style s) e (homes s).
+
+(* however many bind patterns are configured beyond the first, the answer is that of the first
+   pattern on the first replica that answers: further patterns are never consulted for a
+   replica that answers, and a replica that does not answer does not answer any of them *)
+Lemma first_pattern_decides s e svs u pw :
+  first_answer (with_extra s e) svs u pw = first_answer s svs u pw.
+Proof.
+  unfold first_answer. induction svs as [|sv r IH]; [reflexivity|]. cbn [first_answer_gen].
+  destruct sv.
+  - rewrite !patterns_cons, !try_patterns_up. reflexivity.
+  - rewrite !try_patterns_silent by discriminate. exact IH.
+  - rewrite !try_patterns_silent by discriminate. exact IH.
+Qed.
+
+Lemma login_patterns_irrelevant s e u pw :
+  snd (login (with_extra s e) u pw) = snd (login s u pw) /\
+  st (fst (login (with_extra s e) u pw)) = st (fst (login s u pw)) /\
+  jwss (fst (login (with_extra s e) u pw)) = jwss (fst (login s u pw)).
+Proof.
+  unfold login, login_gen. fold (first_answer (with_extra s e) (servers (with_extra s e)) u pw).
+  fold (first_answer s (servers s) u pw). cbn [servers with_extra]. rewrite first_pattern_decides.
+  change (get_pw true (with_extra s e) u) with (get_pw true s u).
+  destruct (first_answer s (servers s) u pw) as [[|]|].
+  - unfold refresh. cbn [st with_extra jwss]. destruct (writable (st s)); repeat split; reflexivity.
+  - destruct (get_pw true s u) as [| |j]; try (repeat split; reflexivity).
+    destruct (N.eqb (j_pw j) pw); repeat split; reflexivity.
+  - repeat split; reflexivity.
+Qed.
+
+(* a user whose entry lives under a LATER pattern cannot log in while a replica answers (the first
+   pattern's invalidCredentials is final) - a false reject, outside the statement, and the reason
+   why keymasterd's configuration passes one pattern *)
+Lemma later_pattern_user_refused s u pw : In SUp (servers s) -> home s u <> 0%nat -> snd (login s u pw) = false.
+Proof.
+  intros Hup Hh. rewrite (verdict_final s u pw Hup). unfold dir_accepts.
+  destruct (home s u); [congruence|]. apply andb_false_r.
+Qed.
+
+(* with a second pattern configured the diagnostic-sensitive reading is MASKED: the attempt under
+   the second pattern is answered "no such entry" (code 49, the style's bad-password sub status),
+   which that reading does take for the directory's verdict *)
+Definition prun_ad2 (n e : nat) (ops : list pop) : pstate :=
+  fold_left (fun s o => fst (pstep_ad s o)) ops (pinit2 n e).
+Lemma ad_masked_by_second_pattern :
+  let ops := removelast ad_disabled_history in
+  snd (pstep_ad (prun_ad2 1 0 ops) (Login 1 7)) = Some true /\
+  snd (pstep_ad (prun_ad2 1 1 ops) (Login 1 7)) = Some false.
 Proof. vm_compute. split; reflexivity. Qed.
